@@ -278,8 +278,16 @@ class VRowText:
 class VCombs2:
     """all pairs (a, b) with lo <= a < b < hi, in itertools.combinations order; iterated as two nested range loops"""
 
-    def __init__(self, lo, hi):
-        self.lo, self.hi = lo, hi
+    def __init__(self, lo, hi, pred=None):
+        self.lo, self.hi, self.pred = lo, hi, pred        # pred: VSpecPred keeping only the pairs it holds for (a filtered enumeration)
+
+
+class VSpecPred:
+    """a contract-level predicate (lambda of a spec expression + the environment it was written in), callable from the
+    synthesized guard of a nest loop only"""
+
+    def __init__(self, lam, env):
+        self.lam, self.env = lam, env
 
 
 class VNested:
@@ -1422,6 +1430,7 @@ class Engine:
             if v is None:
                 return None
             levels = []                 # (target name, iter ast) outermost first
+            guards = {}                 # level index -> guard expression wrapped around everything inside that level
 
             def add_value(f, target):
                 self.nest_n = getattr(self, 'nest_n', 0) + 1
@@ -1433,6 +1442,11 @@ class Engine:
                     a, b = target.elts
                     levels.append((a.id, ast.parse('range({}, {})'.format(lo, hi), mode='eval').body))
                     levels.append((b.id, ast.parse('range({} + 1, {})'.format(a.id, hi), mode='eval').body))
+                    if f.pred is not None:
+                        # a filtered enumeration: the pairs the predicate rejects are skipped
+                        pn = '__nest_pred{}'.format(self.nest_n)
+                        env[pn] = f.pred
+                        guards[len(levels) - 1] = ast.parse('{}({}, {})'.format(pn, a.id, b.id), mode='eval').body
                 else:
                     if not isinstance(target, ast.Name):
                         raise Unsupported('range level needs a plain name target')
@@ -1454,6 +1468,9 @@ class Engine:
             node = None
             for lvl in range(len(levels) - 1, -1, -1):
                 tgt, it = levels[lvl]
+                if lvl in guards:
+                    body = [ast.If(test=guards[lvl], body=body, orelse=[], lineno=s.lineno, col_offset=s.col_offset,
+                                   end_lineno=s.end_lineno, end_col_offset=s.end_col_offset)]
                 node = ast.For(target=ast.Name(id=tgt, ctx=ast.Store()), iter=it, body=body, orelse=[], lineno=s.lineno, col_offset=s.col_offset,
                                end_lineno=s.end_lineno, end_col_offset=s.end_col_offset)
                 ast.fix_missing_locations(node)
@@ -1647,12 +1664,20 @@ class Engine:
             self.assume(i < niter)
             if not self.feasible(z3.BoolVal(True)):
                 raise PathEnd()          # the loop cannot make an iteration on this path (e.g. an empty range): nothing to check
+            self.frames[-1]['ycount'] = 0
             try:
                 self.exec_block(s.body, env)
             except BreakSig:
                 return                  # for/else: else skipped
             except ContinueSig:
                 pass
+            if spec.get('iter_ensures'):
+                # decisive statements about ONE iteration (e.g. "it yields iff ..."): _yielded_now = number of values yielded by
+                # this iteration on this path (yields inside an inner loop are not counted: use the innermost loop)
+                e_it = dict(env)
+                e_it['_yielded_now'] = z3.IntVal(self.frames[-1].get('ycount', 0))
+                for t in spec['iter_ensures']:
+                    self.oblige('yield', 'in every iteration: ' + t, self.spec_eval(t, e_it), s.lineno)
             for h in spec.get('hints', []):      # ghost lemma steps: proved (auxiliary), then available
                 try:
                     self.oblige('hint', h, self.spec_eval(h, env), s.lineno, decisive=False)
@@ -1731,6 +1756,7 @@ class Engine:
             self.oblige('yield', t, self.spec_eval(t, e2), y.lineno)
         name = '_y{}'.format(k)
         env[name] = toz(env.get(name, 0)) + 1
+        fr['ycount'] = fr.get('ycount', 0) + 1
 
     # ------------------------------------------------------------------ expressions
     def spec_eval(self, text, env):
@@ -2637,6 +2663,16 @@ class Engine:
             return None
         if isinstance(f, VClosure):
             return self.call_inline(f.node, f.env, args, kw, f.modinfo, None, e)
+        if isinstance(f, VSpecPred):
+            e2 = dict(f.env)
+            for a, v in zip(f.lam.args.args, args):
+                e2[a.arg] = v
+            saved = getattr(self, 'in_spec', False)
+            self.in_spec = True
+            try:
+                return self.eval(f.lam.body, e2)
+            finally:
+                self.in_spec = saved
         if isinstance(f, VGadFn):
             if len(args) != 1 or kw or not (isinstance(args[0], int) or (is_z3(args[0]) and z3.is_int(args[0]))):
                 raise Unsupported('gadget function called with other than one int')
@@ -2761,7 +2797,7 @@ class Engine:
     def call_contract(self, key, c, fnode, args, kw, node, selfobj):
         allargs = ([selfobj] if selfobj is not None else []) + list(args)
         env = self.bind_args(fnode, allargs, kw, node)
-        if c.get('assumed') or c.get('trusted'):
+        if c.get('assumed') or c.get('trusted') or c.get('value_form'):
             self.used_assumed.add(key)          # reported in the evidence: this proof relies on an unverified contract
         for pn, ty in c.get('params', {}).items():
             if ty == 'fn:gad' and isinstance(env.get(pn), VClosure):
@@ -3304,6 +3340,18 @@ def sf_exists_int(eng, node, env):
 sf_exists_int.raw = True
 
 
+def sf_combs2_where(eng, node, env):
+    """combs2_where(lo, hi, lambda u, v: cond): the pairs lo <= u < v < hi, in combination order, for which cond holds"""
+    lo, hi = eng.eval(node.args[0], env), eng.eval(node.args[1], env)
+    lam = node.args[2]
+    if not (isinstance(lam, ast.Lambda) and len(lam.args.args) == 2):
+        raise SpecError('combs2_where needs a two-argument lambda')
+    return VCombs2(toz(lo), toz(hi), VSpecPred(lam, dict(env)))
+
+
+sf_combs2_where.raw = True
+
+
 def _wrap(fn, ret=None):
     def f(eng, node, *args):
         r = fn(*[_term(a) for a in args])
@@ -3407,7 +3455,7 @@ SPEC_FUNCS = {
     'aind': _wrap(specs.aind), 'gadid': sf_gadid,
     'gad': _wrap(specs.gad), 'cdist': _wrap(specs.cdist), 'cdistall': _wrap(specs.cdistall), 'cind': _wrap(specs.cind),
     'satind': _wrap(specs.satind),
-    'old': sf_old, 'implies': sf_implies, 'forall': sf_forall_int, 'exists': sf_exists_int, 'created': sf_created, 'final': sf_final,
+    'old': sf_old, 'implies': sf_implies, 'forall': sf_forall_int, 'exists': sf_exists_int, 'combs2_where': sf_combs2_where, 'created': sf_created, 'final': sf_final,
     'firsts': lambda eng, node, p: VArr(p.length, p.first),
     'imapsub': lambda eng, node, sq, A, n: VSeq(specs.imapsub(_term(sq), as_arr(A).arr, toz(n))),
     'isperm': lambda eng, node, A, n, base: specs.isperm(as_arr(A).arr, toz(n), toz(base)),
